@@ -29,6 +29,8 @@ type schedReader struct {
 	exhaustive bool // all read sizes are value choices; otherwise short reads are deviations
 	eofWith    bool
 	reads      int
+	zeros      int
+	noZero     bool // no (0, nil) answers in this schedule
 	last       []byte
 	trace      []int
 }
@@ -43,6 +45,13 @@ func (r *schedReader) Read(p []byte) (int, error) {
 		panic("reader consulted far too often")
 	}
 	if len(p) == 0 {
+		return 0, nil
+	}
+	// "nothing happened": a Read may return (0, nil) (io.Reader allows it, callers have to try again); at most one per
+	// schedule, as a deviation
+	if !r.noZero && r.zeros < 1 && r.x.Dev(2) == 1 {
+		r.zeros++
+		r.trace = append(r.trace, 0)
 		return 0, nil
 	}
 	rem := len(r.data) - r.p
@@ -75,8 +84,8 @@ func init() {
 	register(func() {
 		engine.Register(&engine.Check{
 			ID: "C18", Level: "model_checking",
-			Rule:        "streams of k in {0,1,2(,3)} values from a per-format corpus (JSON separated by each whitespace form, with and without trailing whitespace, incl. a trailing number) and every truncation of them x decoder kind {byte slice, io.Reader} x buffer size {1,2,3,7,64} x reader schedule: the size of every Read answer is chosen by the explorer (all compositions for streams <=10 bytes, at most 2 short reads beyond) x io.EOF together with the last bytes or separately; executed on the real decoders; oracle: one reference value (refjson/refcbor/refubj) per successful Next, then io.EOF; a truncated stream yields an error other than io.EOF; a case = (stream, decoder, buffer, read schedule); non-trivial = at least two reads",
-			Assumptions: []string{"zero-byte reads (0, nil) are outside the statement and not generated", "reference decoders define the i-th value"},
+			Rule:        "streams of k in {0,1,2(,3)} values from a per-format corpus (JSON separated by each whitespace form, with and without trailing whitespace, incl. a trailing number) and every truncation of them x decoder kind {byte slice, io.Reader} x buffer size {1,2,3,7,64} x reader schedule: the size of every Read answer is chosen by the explorer (all compositions for streams <=10 bytes, at most 2 short reads beyond) x io.EOF together with the last bytes or separately x one read that returns (0, nil) at any position; executed on the real decoders; oracle: one reference value (refjson/refcbor/refubj) per successful Next, then io.EOF; a truncated stream yields an error other than io.EOF; a case = (stream, decoder, buffer, read schedule); non-trivial = at least two reads",
+			Assumptions: []string{"at most one zero-byte read (0, nil) per schedule", "reference decoders define the i-th value"},
 			Families:    c18Families,
 			Bounds: func(tier string) map[string]interface{} {
 				return map[string]interface{}{"max_values_per_stream": tierPick(tier, 2, 3), "all_read_schedules_up_to_bytes": 10, "short_reads_beyond": 2}
@@ -111,7 +120,9 @@ func c18Families(tier string) []engine.Family {
 				t := x.Choose(len(stream))
 				stream = stream[:len(stream)-t]
 			}
+			c18NoZero = k >= 3 // streams of three values (thorough tier) are explored without (0, nil) reads
 			c18Body(x, cd, stream, bufs)
+			c18NoZero = false
 		}})
 	}
 	// long items: strings and field names whose LENGTH BYTE equals a structural marker of the format ('}' = 125, ']' = 93,
@@ -145,6 +156,8 @@ func c18Families(tier string) []engine.Family {
 	return fams
 }
 
+var c18NoZero bool
+
 func c18Body(x *engine.Exec, cd *Codec, stream []byte, bufs []int) {
 	ref := refOf(cd, stream)
 	if ref.Status != model.Complete && ref.Status != model.Truncated {
@@ -167,7 +180,7 @@ func c18Body(x *engine.Exec, cd *Codec, stream []byte, bufs []int) {
 		if kind == 0 {
 			d = cd.BytesDec(append([]byte(nil), stream...), rec)
 		} else {
-			rd = &schedReader{x: x, data: stream, exhaustive: len(stream) <= 10, eofWith: eofWith}
+			rd = &schedReader{x: x, data: stream, exhaustive: len(stream) <= 10, eofWith: eofWith, noZero: c18NoZero}
 			d = cd.ReaderDec(rd, buf, rec)
 		}
 		for i := 0; i <= len(stream)+2; i++ {
